@@ -94,7 +94,9 @@ ResSeq(st) == [i \in DOMAIN st |-> ResPool[st[i]]]
 StoreNow == EffectiveStore(ResSeq(store))
 UseChoices == {<<>>, <<1, 2>>, <<3, 1>>, <<1, 3, 4>>, <<2>>, <<1, 5>>, <<5, 1>>}
 PoolX == Pool
-InitRules == IF InitSet = "full" THEN <<1, 2, 3, 4, 5, 6, 7, 8, 10, 11, 23, 24, 26, 27, 30, 31>>
+\* (the removeparam rules 30, 31 in blocker mode only: an image does not carry removeparam rules - open finding
+\* wireDropsRemoveparam, decided by C08 - so an engine that reloads would lose them)
+InitRules == IF InitSet = "full" THEN <<1, 2, 3, 4, 5, 6, 7, 8, 10, 11, 23, 24, 26, 27>> \o (IF Mode = "blocker" THEN <<30, 31>> ELSE <<>>)
              ELSE IF InitSet = "res" THEN <<15, 16, 17, 18, 19, 13, 3>> ELSE <<3, 5, 7, 13>>
 Addable == IF Mode # "blocker" THEN {} ELSE IF InitSet = "res" THEN {20, 21, 29, 32} ELSE {9, 12, 14, 20, 21, 22, 25, 28, 29, 33}
 
@@ -205,6 +207,11 @@ Deserialize ==
   /\ cache' = [a \in Addr |-> NONE]      \* a fresh Blocker comes with a fresh regex manager
   /\ UNCHANGED store /\ Op([op |-> "deserialize", now |-> tags])
 
+\* a load that is refused (a truncated image) leaves rules, tags and cache alone
+BadLoad ==
+  /\ Mode = "engine" /\ Ops = "all" /\ Len(hist) < Depth - 1
+  /\ UNCHANGED <<rules, tags, blob, heap, cache, store>> /\ Op([op |-> "badload", now |-> tags])
+
 \* a query compiles (and caches) the regex of every regex rule of the tagged list it consults
 Query ==
   /\ Len(hist) < Depth
@@ -236,7 +243,7 @@ Next == \/ (Ops \notin {"res", "radd"} /\ \E S \in TagSets : UseTags(S))
         \/ (Ops = "res" /\ (Serialize \/ Deserialize))
         \/ (Ops = "all" /\ \E t \in {"t1", "t2"} : EnableTags({t}) \/ DisableTags({t}))
         \/ (Ops \in {"all", "radd"} /\ \E i \in Addable \cup ReAddable : AddFilter(i))
-        \/ (Ops = "all" /\ (Optimize \/ Serialize \/ Deserialize))
+        \/ (Ops = "all" /\ (Optimize \/ Serialize \/ Deserialize \/ BadLoad))
         \/ Discard \/ Query
 
 --------------------------------------------------------------------------
@@ -249,7 +256,7 @@ TagAlgebra ==
   [][ /\ (Len(hist') > Len(hist) /\ hist'[Len(hist')].op = "use") => tags' = hist'[Len(hist')].tags
       /\ (Len(hist') > Len(hist) /\ hist'[Len(hist')].op = "enable") => tags' = tags \cup hist'[Len(hist')].tags
       /\ (Len(hist') > Len(hist) /\ hist'[Len(hist')].op = "disable") => tags' = tags \ hist'[Len(hist')].tags
-      /\ (Len(hist') > Len(hist) /\ hist'[Len(hist')].op \in {"deserialize", "serialize", "discard", "optimize", "add", "q", "useres", "addres"}) => tags' = tags
+      /\ (Len(hist') > Len(hist) /\ hist'[Len(hist')].op \in {"deserialize", "serialize", "discard", "optimize", "add", "q", "useres", "addres", "badload"}) => tags' = tags
     ]_vars
 
 \* M2 export: complete histories (the last operation is a query)
